@@ -111,8 +111,19 @@ def run(ctx):
         bykind.setdefault(r["kind"], []).append(r)
     lists = []
     for i in range(n_lists):
-        stratum = rng.choice(["random", "same-kind", "near-duplicate", "near-duplicate", "same-subject"])
-        if stratum == "random":
+        stratum = rng.choice(["random", "same-kind", "near-duplicate", "near-duplicate", "same-subject", "same-subject", "signal-grid"])
+        if stratum == "signal-grid":
+            # the one kind with two set-valued fields: rules on one peer from a small grid of accesses x signal sets, in any order
+            q = rulegen.qual(rng)
+            peer = rng.choice(rulegen.PEERS[:4])
+            lst = []
+            for _k in range(rng.randint(3, 5)):
+                r = {"kind": "signal", "Comment": "", "Peer": peer}
+                r.update(q)
+                r["Access"] = rng.choice([["send"], ["receive"], ["send", "receive"]])
+                r["Set"] = rng.choice([["kill"], ["term"], ["kill", "term"], ["hup"]])
+                lst.append(r)
+        elif stratum == "random":
             lst = [rng.choice(pool) for _ in range(rng.randint(2, 12))]
         elif stratum == "same-kind":
             k = rng.choice(list(bykind))
